@@ -81,7 +81,7 @@ def elemBody (W : World) (f : Nat) (ctx : Ctx) (st : St) (tag : Str) (attrs : Li
         | _ => evalList W f ctx st (rest.drop ps.2))
   else if tag == S "template" then
     bindR (evalTemplate W f ctx st attrs kids) (fun res st1 =>
-      prepend (if hasAttr attrs (S "v-keep") then [.elem tag attrs res] else res) (evalList W f ctx st1 rest))
+      prepend (if hasAttr attrs (S "v-keep") then [.elem tag (keptAttrs W.P st.stack attrs) res] else res) (evalList W f ctx st1 rest))
   else
     bindR (evalPlain W f ctx st tag attrs kids) (fun res st1 => prepend res (evalList W f ctx st1 rest))
 
